@@ -614,7 +614,8 @@ def replay_pdhg(sp, r, insts, states):
             bx, bu = np.array(alg.x), np.array(alg.u)
             alg.update()
             if not (close(alg.x, bx) and close(alg.u, bu)):
-                viol(r, "early_stop", "PrimalDualHybridGradient", inst, "%s: stopped after %d of %d updates, a further update moves (x, u) from (%s, %s) to (%s, %s)" % (key_args, nup, max_iter, bx, bu, alg.x, alg.u))
+                # (C13 as well: driven by its own done() the method does not reach the minimiser)
+                viol(r, "early_stop", "PrimalDualHybridGradient", inst, "%s: stopped after %d of %d updates, a further update moves (x, u) from (%s, %s) to (%s, %s)" % (key_args, nup, max_iter, bx, bu, alg.x, alg.u), props=("C15", "C13"))
         if inst["start"] == "saddle" and max_iter >= 1 and ok:
             m = want[0]
             if not (close(x_caller, fl(m["x"])) and close(u_caller, fl(m["u"]))):
